@@ -165,27 +165,39 @@ def imported_names(files: dict[str, str]) -> set[tuple[str, str]]:
     return out
 
 
+def _keep_only(inp: dict, keep: list[str]) -> dict:
+    t = json.loads(json.dumps(inp))
+    tp = doc_properties(t["doc"])
+    for other in list(tp):
+        if other not in keep:
+            del tp[other]
+    holder = t["doc"]["components"]["schemas"]["Sweep"] if "components" in t["doc"] else t["doc"]
+    if "required" in holder:
+        holder["required"] = [r for r in holder["required"] if r in keep]
+        if not holder["required"]:
+            del holder["required"]
+    return t
+
+
 def single_property(inp: dict, want: dict) -> dict:
-    """the failing document cut down to the first single property on which the same oracle still fails"""
+    """the failing document cut down by bisection to the fewest properties on which the same oracle still fails (one, unless
+    the failure needs an interaction), then without options if they do not matter"""
     from . import c19_kw
 
-    props = doc_properties(inp["doc"])
-    for name in list(props):
-        t = json.loads(json.dumps(inp))
-        tp = doc_properties(t["doc"])
-        for other in list(tp):
-            if other != name:
-                del tp[other]
-        holder = t["doc"]["components"]["schemas"]["Sweep"] if "components" in t["doc"] else t["doc"]
-        if "required" in holder:
-            holder["required"] = [r for r in holder["required"] if r == name]
-            if not holder["required"]:
-                del holder["required"]
-        if c19_kw.still_fails(t, want):
-            if t["opts"] and c19_kw.still_fails({**t, "opts": {}}, want):
-                t["opts"] = {}
-            return t
-    return inp
+    names = list(doc_properties(inp["doc"]))
+    cur = inp
+    while len(names) > 1:
+        h = len(names) // 2
+        for part in (names[:h], names[h:]):
+            t = _keep_only(cur, part)
+            if c19_kw.still_fails(t, want):
+                cur, names = t, part
+                break
+        else:
+            break
+    if cur["opts"] and c19_kw.still_fails({**cur, "opts": {}}, want):
+        cur = {**cur, "opts": {}}
+    return cur
 
 
 def sweep_case(ck: Check, camp, kind: str, minor: int, input_kind: str, opts: dict, props: list[tuple[str, dict, bool]],
@@ -208,7 +220,7 @@ def sweep_case(ck: Check, camp, kind: str, minor: int, input_kind: str, opts: di
         for m, n in sorted(imported_names(res.files) & suspects):
             camp.hit(f"output imports suspect {m}.{n}: {kind}@3.{minor}")
     before = len(ck.failures)
-    c19.case(ck, camp, kind, minor, doc, input_kind, opts, precomputed=res)
+    c19.case(ck, camp, kind, minor, doc, input_kind, opts, precomputed=res, shrink=False)
     for k_ in set(names.values()):
         camp.hit("keyword:" + k_.split(":")[0])
     if len(ck.failures) > before:
